@@ -633,7 +633,7 @@ def run(ctx):
     for key, desc, obj in res['pred_fail']:
         if key in seenp: continue
         seenp.add(key)
-        ctx.report('impl:' + key, 'implementation violates the C22 clause %s: %s' % (key, desc), dict(obj, replay_cmd='%s <mode> %d <n>' % (exe, ctx.seed)))
+        ctx.report('impl:' + key, 'implementation violates the C22 clause %s: %s' % (key, desc), dict({'replay_cmd': '%s <mode> %d <n>' % (exe, ctx.seed)}, **obj))
     ctx.extra['predicate_failures'] = len(res['pred_fail'])
     ctx.extra['dispatches_with_a_terminating_handler'] = res.get('n_term_dispatches', 0)
     ctx.extra['of_which_terminating_handler_not_called_last'] = res.get('n_term_not_last', 0)
